@@ -2,7 +2,7 @@
    ONLY statements: each is closed by `exact` of a lemma of theories/ (side conditions on the constants
    regenerated from /repo by the translator - YVGen.Consts, YVGen.Opcodes - are decided by computation). *)
 From Coq Require Import List NArith Bool String Lia.
-From YVGen Require Consts Opcodes.
+From YVGen Require Consts Opcodes AddLocalSites OperandArith.
 From YV Require Import Show Bytecode Skeleton Verifier VerifierProofs VerifierRun VerifierRunProofs.
 Import ListNotations.
 Open Scope N_scope.
@@ -17,6 +17,51 @@ Theorem C04_side_locals_max : Consts.LOCALS_MAX <= 256.
 Proof. vm_compute; discriminate. Qed.
 Theorem C04_side_upvalues_max : Consts.UPVALUES_MAX <= 256.
 Proof. vm_compute; discriminate. Qed.
+
+(* ---------- LOCALS_MAX is enforced at ONE place, and every caller looks at the answer ----------
+   `Compiler::add_local` reports the limit through its bool result.  Up to /repo eac17ca two callers dropped it
+   (the hidden iterator of `for`, the `super` local of a derived class): at exactly 256 locals the local was
+   silently lost and later variables named the wrong slot, with consistent heights - invisible to the verifier,
+   so it is a side condition on the regenerated call-site table (translator/translate_c04.py), paired with the
+   run-time oracle of the limit family `locals_boundary` (tools/props/C04.py) which yields the failing input. *)
+Definition all_checked (l : list (string * bool)) : bool := forallb snd l.
+Theorem C04_side_add_local_results_checked :
+  all_checked AddLocalSites.add_local_sites = true /\ AddLocalSites.add_local_sites <> [].
+Proof. split; [vm_compute; reflexivity|discriminate]. Qed.
+Theorem C04_side_add_local_enforces_limit :
+  AddLocalSites.add_local_enforces_limit = true /\ AddLocalSites.locals_push_sites = ["add_local"%string].
+Proof. split; reflexivity. Qed.
+(* the table the same extractor yields for /repo 99d40fc .. eac17ca: the side condition was false *)
+Definition add_local_sites_old : list (string * bool) :=
+  [("class_declaration", false); ("for_statement", false); ("declare_variable", true)]%string.
+Theorem C04_add_local_results_checked_refuted_old : all_checked add_local_sites_old = false.
+Proof. vm_compute; reflexivity. Qed.
+
+(* ---------- operands are widened before the VM does arithmetic on them ----------
+   Bytecode.decode / Skeleton.step compute finally_pc = nx + a + b (PushExcHandler), 2 * a (BuildHashMap), a + 1
+   (Call) in unbounded N.  That models the VM only if vm.rs widens the u8 / u16 operand (`as usize`) BEFORE the
+   arithmetic.  The table of every arithmetic use of a `read_short()` / `read_byte()` variable is regenerated
+   from vm.rs (translator/translate_c04.py); the run-time counterpart is the limit family `try_catch_sum`
+   (|try| + |catch| on both sides of 2^16, run in the debug and the release build). *)
+Definition arith_all_widened (l : list (string * string * bool)) : bool := forallb snd l.
+Definition has_site (f v : string) (l : list (string * string * bool)) : bool :=
+  existsb (fun s => String.eqb (fst (fst s)) f && String.eqb (snd (fst s)) v) l.
+Theorem C04_side_operands_widened_before_arithmetic :
+  arith_all_widened OperandArith.operand_arith_sites = true.
+Proof. vm_compute; reflexivity. Qed.
+(* fail closed: the addition try_size + catch_size of push_exc_handler_impl is still recognised by the extractor *)
+Theorem C04_side_handler_sum_recognised :
+  has_site "push_exc_handler_impl" "try_size" OperandArith.operand_arith_sites = true /\
+  has_site "push_exc_handler_impl" "catch_size" OperandArith.operand_arith_sites = true.
+Proof. split; vm_compute; reflexivity. Qed.
+(* the table the extractor yields when the two operands stay u16 (seeded mutant, round 4): the condition is false,
+   and in 16 bits the sum of two accepted operands wraps *)
+Definition operand_arith_sites_narrow : list (string * string * bool) :=
+  [("push_exc_handler_impl", "try_size", false); ("push_exc_handler_impl", "catch_size", false)]%string.
+Theorem C04_operands_widened_refuted_narrow :
+  arith_all_widened operand_arith_sites_narrow = false /\
+  exists a b, a <= 65535 /\ b <= 65535 /\ (a + b) mod 65536 <> a + b.
+Proof. split; [vm_compute; reflexivity|]. exists 32765, 32771. vm_compute. repeat split; discriminate. Qed.
 
 (* ---------- opcode numbering / names / layouts are those of chunk.rs and vm.rs today ---------- *)
 Theorem C04_opcode_names : map name_of_opcode all_opcodes = Opcodes.opcode_names.
@@ -123,6 +168,12 @@ Print Assumptions C04_side_stack_max.
 Print Assumptions C04_side_frames_max.
 Print Assumptions C04_side_locals_max.
 Print Assumptions C04_side_upvalues_max.
+Print Assumptions C04_side_add_local_results_checked.
+Print Assumptions C04_side_add_local_enforces_limit.
+Print Assumptions C04_add_local_results_checked_refuted_old.
+Print Assumptions C04_side_operands_widened_before_arithmetic.
+Print Assumptions C04_side_handler_sum_recognised.
+Print Assumptions C04_operands_widened_refuted_narrow.
 Print Assumptions C04_opcode_names.
 Print Assumptions C04_opcode_numbering.
 Print Assumptions C04_vm_dispatches_exactly_these.
